@@ -151,6 +151,9 @@ def requests(cfg, rng, n, tier, part, nparts, st):
                     c = rng.random()
                     d = (rng.choice(tens[-2:] + half[-2:]) + rng.choice((-1, 0, 0, 1))) if c < 0.4 else (0 if c < 0.6 else rng.getrandbits(D))
                     a |= (d % cfg.B) << (D * i)
+                if rng.random() < 0.5:
+                    from props.c11 import chunk_digit_value, sparse_in_radix
+                    a = rng.choice((chunk_digit_value, sparse_in_radix))(cfg.U(), rng, 10)
                 a = min(a, cfg.max) or 1
                 base = 10
             elif rr < 0.65:
